@@ -214,7 +214,7 @@ func dumpGo(v interface{}, b []byte) []byte {
 	return append(b, 255)
 }
 
-func genC01More(r *rng, g *tgen, root *Ty, desc *thrift.TypeDescriptor, val *Val, buf []byte, paths [][]Step) {
+func genC01More(r *rng, g *tgen, root *Ty, desc *thrift.TypeDescriptor, val *Val, buf []byte, paths [][]Step, db []byte) {
 	rootNode := generic.NewNode(thrift.STRUCT, buf)
 	rootVal := generic.NewValue(desc, buf)
 	for _, p := range paths {
@@ -465,6 +465,12 @@ func genC01More(r *rng, g *tgen, root *Ty, desc *thrift.TypeDescriptor, val *Val
 			f = append(f, ov...)
 			f = append(f, fi(dty))
 			out.emit(106, f...)
+			// the same FieldByName call judged by the typed model (108, api 6)
+			np := append(append([]Step(nil), p...), Step{Kind: 6, B: []byte(name), NameID: int64(fd.ID)})
+			f8 := []string{fi(int(thrift.STRUCT)), fx(buf), fx(db), fi(6)}
+			f8 = append(f8, pathFields(np)...)
+			f8 = append(f8, ov...)
+			out.emit(108, f8...)
 		}
 	}
 }
